@@ -93,6 +93,9 @@ func Shard() (int, int) {
 
 // Case counts one generated case.
 func (c *Collector) Case() {
+	if c == nil {
+		return
+	}
 	c.mu.Lock()
 	c.evals++
 	c.mu.Unlock()
@@ -100,6 +103,9 @@ func (c *Collector) Case() {
 
 // Cases counts n generated cases.
 func (c *Collector) Cases(n int) {
+	if c == nil {
+		return
+	}
 	c.mu.Lock()
 	c.evals += int64(n)
 	c.mu.Unlock()
@@ -113,6 +119,9 @@ func hash(s string) uint64 {
 
 // Nontrivial records a non-trivial case identified by key.
 func (c *Collector) Nontrivial(key string) {
+	if c == nil {
+		return
+	}
 	h := hash(key)
 	c.mu.Lock()
 	c.nontrivial[h] = struct{}{}
@@ -121,6 +130,9 @@ func (c *Collector) Nontrivial(key string) {
 
 // Class increments the histogram bucket name.
 func (c *Collector) Class(name string) {
+	if c == nil {
+		return
+	}
 	c.mu.Lock()
 	c.classes[name]++
 	c.mu.Unlock()
@@ -128,6 +140,9 @@ func (c *Collector) Class(name string) {
 
 // ClassN adds n to the histogram bucket name.
 func (c *Collector) ClassN(name string, n int) {
+	if c == nil {
+		return
+	}
 	c.mu.Lock()
 	c.classes[name] += int64(n)
 	c.mu.Unlock()
@@ -135,6 +150,9 @@ func (c *Collector) ClassN(name string, n int) {
 
 // Excluded counts a case excluded by construction because of a known finding.
 func (c *Collector) Excluded(key string) {
+	if c == nil {
+		return
+	}
 	c.mu.Lock()
 	c.excluded[key]++
 	c.mu.Unlock()
@@ -143,6 +161,9 @@ func (c *Collector) Excluded(key string) {
 // WantSample tells whether the next Sample call would be kept. It allows
 // callers to avoid building expensive sample descriptions.
 func (c *Collector) WantSample() bool {
+	if c == nil {
+		return false
+	}
 	c.mu.Lock()
 	defer c.mu.Unlock()
 	n := c.sampleSeen
@@ -161,6 +182,9 @@ func (c *Collector) WantSample() bool {
 
 // Sample offers a literal case as a sample. Only a few are kept.
 func (c *Collector) Sample(v interface{}) {
+	if c == nil {
+		return
+	}
 	keep := c.WantSample()
 	c.mu.Lock()
 	c.sampleSeen++
@@ -176,6 +200,9 @@ func (c *Collector) Sample(v interface{}) {
 
 // SkipSample advances the sample counter without keeping anything.
 func (c *Collector) SkipSample() {
+	if c == nil {
+		return
+	}
 	c.mu.Lock()
 	c.sampleSeen++
 	c.mu.Unlock()
@@ -183,6 +210,9 @@ func (c *Collector) SkipSample() {
 
 // Assume records an assumption the check relies on.
 func (c *Collector) Assume(s string) {
+	if c == nil {
+		return
+	}
 	c.mu.Lock()
 	for _, a := range c.assumptions {
 		if a == s {
@@ -196,6 +226,9 @@ func (c *Collector) Assume(s string) {
 
 // Extra stores an additional coverage key.
 func (c *Collector) Extra(k string, v interface{}) {
+	if c == nil {
+		return
+	}
 	c.mu.Lock()
 	c.extra[k] = v
 	c.mu.Unlock()
@@ -203,6 +236,9 @@ func (c *Collector) Extra(k string, v interface{}) {
 
 // AddExtra adds n to the integer coverage key k.
 func (c *Collector) AddExtra(k string, n int64) {
+	if c == nil {
+		return
+	}
 	c.mu.Lock()
 	old, _ := c.extra[k].(int64)
 	c.extra[k] = old + n
@@ -228,6 +264,9 @@ type partial struct {
 
 // Flush writes the partial evidence file named by VERIF_EV_OUT (if set).
 func (c *Collector) Flush() {
+	if c == nil {
+		return
+	}
 	c.mu.Lock()
 	defer c.mu.Unlock()
 
@@ -318,6 +357,9 @@ func loadKnown() {
 // Known tells whether finding key of this collector's property is listed in
 // KNOWN_FINDINGS.txt. The file is only ever read.
 func (c *Collector) Known(key string) bool {
+	if c == nil {
+		return false
+	}
 	knownOnce.Do(loadKnown)
 	_, ok := knownSet[c.ID+"/"+key]
 	return ok
@@ -326,6 +368,9 @@ func (c *Collector) Known(key string) bool {
 // ReportKnown prints the KNOWN-FINDING line for a listed finding whose witness
 // still fails on the current tree. Each key is printed once per process.
 func (c *Collector) ReportKnown(key string, what string) {
+	if c == nil {
+		return
+	}
 	c.mu.Lock()
 	for _, k := range c.known {
 		if k == key {
